@@ -8,6 +8,8 @@ import PgsVerif.Model.Persist
 import PgsVerif.Model.Gen
 import PgsVerif.Model.FailStop
 import PgsVerif.Model.AstNav
+import PgsVerif.Model.AstSem
+import PgsVerif.Model.AstSem2
 /-
   JSON glue: one `Engine` per correspondence.  Only decoding/encoding lives here; every function
   called is the very definition the theorems in `PgsVerif/Props` are about.
@@ -262,9 +264,27 @@ end C14
 namespace AST
 def engineC01 : Engine :=
   mkEngine (I := World) (O := NavObs) navModel (fun _ => true) judgeNav
+structure WorldP where
+  w : World
+  probes : List String
+instance : FromJson WorldP where
+  fromJson? j := do
+    let w : World ← fromJson? j
+    let ps : List String := ((j.getObjValAs? (List String) "probes").toOption).getD []
+    pure ⟨w, ps⟩
+def engineC02 : Engine :=
+  mkEngine (I := WorldP) (O := C02Obs) (fun i => c02Model i.w i.probes) (fun _ => true) (fun i o => judgeC02 i.w i.probes o)
+def engineC03 : Engine :=
+  mkEngine (I := World) (O := C03Obs) c03Model (fun _ => true) judgeC03
+def engineC04 : Engine :=
+  mkEngine (I := World) (O := C04Obs) c04Model (fun _ => true) judgeC04
+def engineC08 : Engine :=
+  mkEngine (I := World) (O := C08Obs) c08Model domC08 judgeC08
+def engineC09 : Engine :=
+  mkEngine (I := World) (O := C09Obs) c09Model (fun _ => true) judgeC09
 end AST
 
 def engines : List (String × Engine) :=
-  [ ("c11", C11.engine), ("fp", FP.engine), ("c15", C15.engine), ("c19", C19.engine), ("c20", C20.engine), ("c18", C18.engine), ("c10", Persist.engineC10), ("c12", Persist.engineC12), ("c11p", Persist.engineC10), ("c13", C13.engine), ("c14", C14.engine), ("c01", AST.engineC01) ]
+  [ ("c11", C11.engine), ("fp", FP.engine), ("c15", C15.engine), ("c19", C19.engine), ("c20", C20.engine), ("c18", C18.engine), ("c10", Persist.engineC10), ("c12", Persist.engineC12), ("c11p", Persist.engineC10), ("c13", C13.engine), ("c14", C14.engine), ("c01", AST.engineC01), ("c02", AST.engineC02), ("c03", AST.engineC03), ("c04", AST.engineC04), ("c08", AST.engineC08), ("c09", AST.engineC09) ]
 
 end Pgs
